@@ -978,12 +978,12 @@ def selftest():
 
 
 SUBS = [
-    Sub("terms", check_terms, strategy=strat_terms, quick=900, thorough=5000, workers_quick=4,
-        workers_thorough=16, budget_quick=40, budget_thorough=500),
-    Sub("json", check_json, strategy=strat_json, quick=1500, thorough=20000, workers_quick=2,
-        workers_thorough=16, budget_quick=25, budget_thorough=400),
-    Sub("taglang", check_taglang, strategy=strat_taglang, quick=800, thorough=8000, workers_quick=2,
-        workers_thorough=16, budget_quick=25, budget_thorough=400),
+    Sub("terms", check_terms, strategy=strat_terms, quick=600, thorough=5000, workers_quick=4,
+        workers_thorough=16, budget_quick=30, budget_thorough=500),
+    Sub("json", check_json, strategy=strat_json, quick=1000, thorough=20000, workers_quick=2,
+        workers_thorough=16, budget_quick=10, budget_thorough=300),
+    Sub("taglang", check_taglang, strategy=strat_taglang, quick=600, thorough=8000, workers_quick=2,
+        workers_thorough=16, budget_quick=15, budget_thorough=400),
 ]
 
 REGRESSIONS = [
